@@ -484,3 +484,46 @@ Fixpoint overlap_free (ls : list link) : bool :=
                             && forallb (fun s => negb (strictly_comparable (l_tgt l') s)) (l_src l)) ls'
       && overlap_free ls'
   end.
+
+(* ---------------------------------------------------------------- repaired behaviour (fixes/C15-*.patch)
+   fixes/C15-link-key-prefix-overlap.patch: _initial_input_checks additionally rejects (ValueError) a link whose
+   target is equal to, inside or above (a) the target of an earlier link, (b) a source of an earlier link,
+   (c) one of its own sources. *)
+Definition extra_checks (prev : list alink) (l : link) : bool :=
+  forallb (fun t => negb (comparable (l_tgt l) t)) (map al_tgt prev)
+  && forallb (fun s => negb (comparable (l_tgt l) s)) (flat_map al_src prev)
+  && forallb (fun s => negb (comparable (l_tgt l) s)) (l_src l).
+
+Definition add_link_fixed (p : parser) (l : link) : res parser :=
+  if extra_checks (p_links p) l then add_link p l else Err EOther.
+
+Fixpoint add_links_fixed (p : parser) (ls : list link) : parser * list N :=
+  match ls with
+  | [] => (p, [])
+  | l :: ls' =>
+      match add_link_fixed p l with
+      | Ok p' => let '(q, vs) := add_links_fixed p' ls' in (q, 0%N :: vs)
+      | Err EUnmodelled => let '(q, vs) := add_links_fixed p ls' in (q, 2%N :: vs)
+      | Err _ => let '(q, vs) := add_links_fixed p ls' in (q, 1%N :: vs)
+      end
+  end.
+
+Definition build_fixed (ds : list decl) (ls : list link) : parser * list N := add_links_fixed (init_parser ds) ls.
+
+(* fixes/C15-list-item-target-in-dump.patch: strip_link_target_keys also applies del_target_key("init_args.<key>")
+   to every Namespace item when the class-typed argument holds a list *)
+Definition del_target_fixed (cfg : val) (a : alink) : val :=
+  match al_kind a with
+  | TgtPlain => cfg
+  | TgtInit dest child =>
+      let cfg' := del_target_key cfg (al_tgt a) in
+      match get cfg' dest with
+      | Some (VList items) =>
+          set cfg' dest (VList (map (fun i => if is_map i then del_target_key i child else i) items))
+      | _ => cfg'
+      end
+  end.
+
+Definition strip_fixed (p : parser) (cfg : val) : val :=
+  let plain := map (fun a => d_key (fst a)) (filter (fun a => snd a) (p_acts p)) in
+  fold_left del_target_fixed (p_links p) (fold_left del_target_key plain cfg).
